@@ -227,6 +227,8 @@ pub struct FaultCfg {
     /// stratified faults: (opcode, block number, fate) forced once each onto the first matching
     /// datagram sent after 60000 DATA datagrams (the windows around the 16-bit wrap)
     pub forced: Vec<(u8, u16, Fate)>,
+    /// enumerated stratum: this fate for the n-th datagram of the data phase (the first DATA is 0)
+    pub forced_nth: Option<(u64, Fate)>,
 }
 
 impl Default for FaultCfg {
@@ -245,6 +247,7 @@ impl Default for FaultCfg {
             scale_ns: 5 * SEC,
             spare_requests: false,
             forced: Vec::new(),
+            forced_nth: None,
         }
     }
 }
@@ -377,6 +380,8 @@ pub struct Inner {
     pub sb_root: String,
     /// C15: faults only while the DATA count is within this margin of a multiple of 65536
     pub wrap_gate: Option<u64>,
+    /// datagrams sent since the data phase began
+    pub phase_dgrams: u64,
 }
 
 pub struct World {
@@ -602,6 +607,16 @@ impl Inner {
         if applies && self.faults_allowed() && !(self.cfg.spare_requests && is_request) {
             let w = self.cfg.fate_w;
             fate = [Fate::Deliver, Fate::Drop, Fate::Dup, Fate::Delay, Fate::BigDelay, Fate::Late][self.choices.choose("net.fate", &w)];
+        }
+        if self.data_phase {
+            if let Some((n, f)) = self.cfg.forced_nth {
+                if self.phase_dgrams == n {
+                    fate = f;
+                    self.budget_left += 1;
+                    self.stats.count_fault("forced-nth");
+                }
+            }
+            self.phase_dgrams += 1;
         }
         if !self.cfg.forced.is_empty() && self.stats.data_blocks >= 60000 && data.len() >= 4 && data[0] == 0 {
             let num = u16::from_be_bytes([data[2], data[3]]);
@@ -892,6 +907,7 @@ impl World {
                 harness_error: None,
                 sb_root: String::new(),
                 wrap_gate: None,
+                phase_dgrams: 0,
             }),
             driver_cv: Condvar::new(),
         })
